@@ -178,6 +178,18 @@ static Outcome finish(LibCall &lc, bool failed)
     return o;
 }
 
+// fault-armed call of the operation with one re-issue after a failure caused by the fault
+#define ARR_CALL(FAILED_EXPR, BODY) \
+    for (int arr_try_ = 0, arr_pend_err_ = 0, arr_pend_alloc_ = 0;; ++arr_try_) { \
+	LibCall lc(c, arr_try_ == 0 ? &op : nullptr); \
+	BODY; \
+	bool arr_alloc_ = sim_alloc_fault_fired(); \
+	o = finish(lc, (FAILED_EXPR)); \
+	if (arr_try_ == 0 && o.fired && o.failed && !c.violated) { arr_pend_err_ = o.err; arr_pend_alloc_ = arr_alloc_; fault_failed(c, op.k, o.err, arr_alloc_); continue; } \
+	if (arr_try_ == 1 && !o.failed) fault_recovered(c, op.k, arr_pend_err_, arr_pend_alloc_ != 0); \
+	break; \
+    }
+
 // Check the outcome of a call that the model classifies as valid (must succeed unless a fault
 // fired) or refused (must fail with EINVAL and change nothing).  Returns true when the call
 // took effect.
@@ -224,7 +236,7 @@ static void run_op(ArrWorld &w, const Op &op)
 	bool valid = R >= 0 && C >= 0 && F >= 0 && ArrayModel::dims_ok(t, R, C);
 	int rc;
 	Outcome o;
-	{ LibCall lc(c, &op); rc = k == "init" ? vnadata_init(v, (vnadata_parameter_type_t)t, R, C, F) : vnadata_resize(v, (vnadata_parameter_type_t)t, R, C, F); o = finish(lc, rc != 0); }
+	ARR_CALL(rc != 0, rc = k == "init" ? vnadata_init(v, (vnadata_parameter_type_t)t, R, C, F) : vnadata_resize(v, (vnadata_parameter_type_t)t, R, C, F))
 	bool took = judge(w, op, o, valid, k.c_str());
 	if (c.violated) return;
 	if (took) { if (k == "init") m.init(t, R, C, F); else m.resize(t, R, C, F); }
@@ -245,7 +257,7 @@ static void run_op(ArrWorld &w, const Op &op)
 	int t = (int)op.I(1);
 	bool valid = ArrayModel::dims_ok(t, m.R, m.C);
 	Outcome o;
-	{ LibCall lc(c, &op); int rc = vnadata_set_type(v, (vnadata_parameter_type_t)t); o = finish(lc, rc != 0); }
+	ARR_CALL(rc != 0, int rc = vnadata_set_type(v, (vnadata_parameter_type_t)t))
 	if (judge(w, op, o, valid, "set_type")) m.type = t;
 	compare_obj(w, oi, op, valid ? "set_type" : "refused set_type");
 	return;
@@ -254,7 +266,7 @@ static void run_op(ArrWorld &w, const Op &op)
 	double f = op.D(0);
 	bool valid = !(f < 0.0);
 	Outcome o;
-	{ LibCall lc(c, &op); int rc = vnadata_add_frequency(v, f); o = finish(lc, rc != 0); }
+	ARR_CALL(rc != 0, int rc = vnadata_add_frequency(v, f))
 	bool took = judge(w, op, o, valid, "add_frequency");
 	if (c.violated) return;
 	if (!took && o.fired && valid) {
@@ -272,11 +284,11 @@ static void run_op(ArrWorld &w, const Op &op)
 	bool valid = fi >= 0 && fi < m.F;
 	if (k == "setf") {
 	    Outcome o;
-	    { LibCall lc(c, &op); int rc = vnadata_set_frequency(v, fi, op.D(0)); o = finish(lc, rc != 0); }
+	    ARR_CALL(rc != 0, int rc = vnadata_set_frequency(v, fi, op.D(0)))
 	    if (judge(w, op, o, valid, "set_frequency")) m.freq[fi] = op.D(0);
 	} else {
 	    double r; Outcome o;
-	    { LibCall lc(c, &op); r = vnadata_get_frequency(v, fi); o = finish(lc, r == HUGE_VAL && !valid); }
+	    ARR_CALL(r == HUGE_VAL && !valid, r = vnadata_get_frequency(v, fi))
 	    if (valid) { if (!same_d(r, m.freq[fi])) c.violate("model", "getf:value", strf("get_frequency(%d) = %s, model %s", fi, hexd(r).c_str(), hexd(m.freq[fi]).c_str())); }
 	    else { if (r != HUGE_VAL) c.violate("model", "getf:rc", strf("get_frequency(%d) with %d frequencies returned %s instead of HUGE_VAL", fi, m.F, hexd(r).c_str())); else judge(w, op, o, false, "get_frequency"); }
 	}
@@ -288,14 +300,14 @@ static void run_op(ArrWorld &w, const Op &op)
 	fv.resize((size_t)m.F);
 	for (int f = 0; f < m.F; ++f) fv[f] = gen_freq(op.I(1), f, (int)op.I(2));
 	Outcome o;
-	{ LibCall lc(c, &op); int rc = vnadata_set_frequency_vector(v, fv.data()); o = finish(lc, rc != 0); }
+	ARR_CALL(rc != 0, int rc = vnadata_set_frequency_vector(v, fv.data()))
 	if (judge(w, op, o, true, "set_frequency_vector")) m.freq = fv;
 	compare_obj(w, oi, op, "set_frequency_vector");
 	return;
     }
     if (k == "fminmax") {
 	double lo, hi; Outcome o;
-	{ LibCall lc(c, &op); lo = vnadata_get_fmin(v); hi = vnadata_get_fmax(v); o = finish(lc, lo == HUGE_VAL); }
+	ARR_CALL(lo == HUGE_VAL, lo = vnadata_get_fmin(v); hi = vnadata_get_fmax(v))
 	if (m.F == 0) {
 	    if (lo != HUGE_VAL || hi != HUGE_VAL) c.violate("model", "fminmax:rc", "get_fmin/get_fmax on an object without frequencies did not return HUGE_VAL");
 	    else c.count("probe.refused");
@@ -308,11 +320,11 @@ static void run_op(ArrWorld &w, const Op &op)
 	bool valid = fi >= 0 && fi < m.F && r >= 0 && r < m.R && cc >= 0 && cc < m.C;
 	if (k == "setc") {
 	    Outcome o;
-	    { LibCall lc(c, &op); int rc = vnadata_set_cell(v, fi, r, cc, toc(opz(op))); o = finish(lc, rc != 0); }
+	    ARR_CALL(rc != 0, int rc = vnadata_set_cell(v, fi, r, cc, toc(opz(op))))
 	    if (judge(w, op, o, valid, "set_cell")) m.cell[fi][(size_t)r * m.C + cc] = opz(op);
 	} else {
 	    cplx a; Outcome o;
-	    { LibCall lc(c, &op); a = vnadata_get_cell(v, fi, r, cc); o = finish(lc, !valid && failed_huge(a)); }
+	    ARR_CALL(!valid && failed_huge(a), a = vnadata_get_cell(v, fi, r, cc))
 	    if (valid) { zc want = m.cell[fi][(size_t)r * m.C + cc]; if (!same_z(toz(a), want)) c.violate("model", "getc:value", strf("get_cell(%d,%d,%d) = %s, model %s", fi, r, cc, hexz(toz(a)).c_str(), hexz(want).c_str())); }
 	    else if (!failed_huge(a)) c.violate("model", "getc:rc", strf("get_cell(%d,%d,%d) outside %dx%dx%d returned a value instead of HUGE_VAL", fi, r, cc, m.F, m.R, m.C));
 	    else judge(w, op, o, false, "get_cell");
@@ -329,11 +341,11 @@ static void run_op(ArrWorld &w, const Op &op)
 	    buf.resize(n);	// caller buffer of exactly rows*columns cells
 	    for (size_t q = 0; q < n; ++q) buf[q] = toc(gen_val(op.I(2), (long)q, (int)op.I(3)));
 	    Outcome o;
-	    { LibCall lc(c, &op); int rc = vnadata_set_matrix(v, fi, buf.data()); o = finish(lc, rc != 0); }
+	    ARR_CALL(rc != 0, int rc = vnadata_set_matrix(v, fi, buf.data()))
 	    if (judge(w, op, o, valid, "set_matrix")) for (size_t q = 0; q < n; ++q) m.cell[fi][q] = toz(buf[q]);
 	} else {
 	    cplx *p; Outcome o;
-	    { LibCall lc(c, &op); p = vnadata_get_matrix(v, fi); o = finish(lc, p == nullptr); }
+	    ARR_CALL(p == nullptr, p = vnadata_get_matrix(v, fi))
 	    if (valid) {
 		if (!p && n > 0) c.violate("model", "getm:rc", "get_matrix returned NULL for a valid frequency index");
 		else for (size_t q = 0; q < n; ++q) if (!same_z(toz(p[q]), m.cell[fi][q])) { c.violate("model", "getm:value", strf("get_matrix(%d)[%zu] = %s, model %s", fi, q, hexz(toz(p[q])).c_str(), hexz(m.cell[fi][q]).c_str())); break; }
@@ -351,11 +363,11 @@ static void run_op(ArrWorld &w, const Op &op)
 	if (k == "setv") {
 	    for (int f = 0; f < m.F; ++f) buf[f] = toc(gen_val(op.I(3), f, (int)op.I(4)));
 	    Outcome o;
-	    { LibCall lc(c, &op); int rc = vnadata_set_from_vector(v, r, cc, buf.data()); o = finish(lc, rc != 0); }
+	    ARR_CALL(rc != 0, int rc = vnadata_set_from_vector(v, r, cc, buf.data()))
 	    if (judge(w, op, o, valid, "set_from_vector")) for (int f = 0; f < m.F; ++f) m.cell[f][(size_t)r * m.C + cc] = toz(buf[f]);
 	} else {
 	    Outcome o;
-	    { LibCall lc(c, &op); int rc = vnadata_get_to_vector(v, r, cc, buf.data()); o = finish(lc, rc != 0); }
+	    ARR_CALL(rc != 0, int rc = vnadata_get_to_vector(v, r, cc, buf.data()))
 	    if (judge(w, op, o, valid, "get_to_vector"))
 		for (int f = 0; f < m.F; ++f) if (!same_z(toz(buf[f]), m.cell[f][(size_t)r * m.C + cc])) { c.violate("model", "getv:value", strf("get_to_vector(%d,%d)[%d] differs from the model", r, cc, f)); break; }
 	}
@@ -368,7 +380,7 @@ static void run_op(ArrWorld &w, const Op &op)
 	bool valid = p >= 0 && p < P;
 	if (k == "z0set") {
 	    Outcome o;
-	    { LibCall lc(c, &op); int rc = vnadata_set_z0(v, p, toc(opz(op))); o = finish(lc, rc != 0); }
+	    ARR_CALL(rc != 0, int rc = vnadata_set_z0(v, p, toc(opz(op))))
 	    bool took = judge(w, op, o, valid, "set_z0");
 	    if (c.violated) return;
 	    if (!took && o.fired && valid) {
@@ -381,7 +393,7 @@ static void run_op(ArrWorld &w, const Op &op)
 	} else {
 	    bool ok = valid && !m.per_f;
 	    cplx a; Outcome o;
-	    { LibCall lc(c, &op); a = vnadata_get_z0(v, p); o = finish(lc, failed_huge(a)); }
+	    ARR_CALL(failed_huge(a), a = vnadata_get_z0(v, p))
 	    if (ok) { if (!same_z(toz(a), m.z0[p])) c.violate("model", "z0get:value", strf("get_z0(%d) = %s, model %s", p, hexz(toz(a)).c_str(), hexz(m.z0[p]).c_str())); }
 	    else if (!failed_huge(a)) c.violate("model", "z0get:rc", strf("get_z0(%d) with %d ports%s returned a value instead of HUGE_VAL", p, P, m.per_f ? " in per-frequency mode" : ""));
 	    else judge(w, op, o, false, "get_z0");
@@ -391,7 +403,7 @@ static void run_op(ArrWorld &w, const Op &op)
     }
     if (k == "z0all") {
 	Outcome o;
-	{ LibCall lc(c, &op); int rc = vnadata_set_all_z0(v, toc(opz(op))); o = finish(lc, rc != 0); }
+	ARR_CALL(rc != 0, int rc = vnadata_set_all_z0(v, toc(opz(op))))
 	bool took = judge(w, op, o, true, "set_all_z0");
 	if (c.violated) return;
 	if (!took && o.fired) {
@@ -410,7 +422,7 @@ static void run_op(ArrWorld &w, const Op &op)
 	buf.resize((size_t)P);
 	for (int p = 0; p < P; ++p) buf[p] = toc(gen_z0(op.I(1), p, (int)op.I(2)));
 	Outcome o;
-	{ LibCall lc(c, &op); int rc = vnadata_set_z0_vector(v, buf.data()); o = finish(lc, rc != 0); }
+	ARR_CALL(rc != 0, int rc = vnadata_set_z0_vector(v, buf.data()))
 	bool took = judge(w, op, o, true, "set_z0_vector");
 	if (c.violated) return;
 	if (!took && o.fired) {
@@ -429,7 +441,7 @@ static void run_op(ArrWorld &w, const Op &op)
 	bool valid = fi >= 0 && fi < m.F && p >= 0 && p < P;
 	if (k == "fz0set") {
 	    Outcome o;
-	    { LibCall lc(c, &op); int rc = vnadata_set_fz0(v, fi, p, toc(opz(op))); o = finish(lc, rc != 0); }
+	    ARR_CALL(rc != 0, int rc = vnadata_set_fz0(v, fi, p, toc(opz(op))))
 	    bool took = judge(w, op, o, valid, "set_fz0");
 	    if (c.violated) return;
 	    if (!took && o.fired && valid) {
@@ -441,7 +453,7 @@ static void run_op(ArrWorld &w, const Op &op)
 	    if (took) { if (!m.per_f) c.count("probe.simple_to_perf"); m.to_perf(); m.fz0[fi][p] = opz(op); }
 	} else {
 	    cplx a; Outcome o;
-	    { LibCall lc(c, &op); a = vnadata_get_fz0(v, fi, p); o = finish(lc, failed_huge(a)); }
+	    ARR_CALL(failed_huge(a), a = vnadata_get_fz0(v, fi, p))
 	    bool fi_bad_only = !(fi >= 0 && fi < m.F) && p >= 0 && p < P && !m.per_f;
 	    if (valid) { zc want = m.z0_at(fi)[p]; if (!same_z(toz(a), want)) c.violate("model", "fz0get:value", strf("get_fz0(%d,%d) = %s, model %s", fi, p, hexz(toz(a)).c_str(), hexz(want).c_str())); }
 	    else if (fi_bad_only) {
@@ -462,7 +474,7 @@ static void run_op(ArrWorld &w, const Op &op)
 	    buf.resize((size_t)P);
 	    for (int p = 0; p < P; ++p) buf[p] = toc(gen_z0(op.I(2), p, (int)op.I(3)));
 	    Outcome o;
-	    { LibCall lc(c, &op); int rc = vnadata_set_fz0_vector(v, fi, buf.data()); o = finish(lc, rc != 0); }
+	    ARR_CALL(rc != 0, int rc = vnadata_set_fz0_vector(v, fi, buf.data()))
 	    bool took = judge(w, op, o, valid, "set_fz0_vector");
 	    if (c.violated) return;
 	    if (!took && o.fired && valid) {
@@ -474,7 +486,7 @@ static void run_op(ArrWorld &w, const Op &op)
 	    if (took) { if (!m.per_f) c.count("probe.simple_to_perf"); m.to_perf(); for (int p = 0; p < P; ++p) m.fz0[fi][p] = toz(buf[p]); }
 	} else {
 	    const cplx *zp; Outcome o;
-	    { LibCall lc(c, &op); zp = vnadata_get_fz0_vector(v, fi); o = finish(lc, zp == nullptr); }
+	    ARR_CALL(zp == nullptr, zp = vnadata_get_fz0_vector(v, fi))
 	    if (valid) {
 		if (!zp && P > 0) c.violate("model", "fz0vget:rc", "get_fz0_vector returned NULL for a valid frequency index");
 		else for (int p = 0; p < P; ++p) if (!same_z(toz(zp[p]), m.z0_at(fi)[p])) { c.violate("model", "fz0vget:value", strf("get_fz0_vector(%d)[%d] differs from the model", fi, p)); break; }
@@ -511,7 +523,7 @@ static void run_op(ArrWorld &w, const Op &op)
 	    else m.convert(res, to);
 	}
 	Outcome o;
-	{ LibCall lc(c, &op); int rc = vnadata_convert(v, w.obj[oo], (vnadata_parameter_type_t)to); o = finish(lc, rc != 0); }
+	ARR_CALL(rc != 0, int rc = vnadata_convert(v, w.obj[oo], (vnadata_parameter_type_t)to))
 	c.count(strf("conv.%d.%d", m.type, to));
 	bool took = judge(w, op, o, valid, "convert");
 	if (c.violated) return;
@@ -595,7 +607,7 @@ static void run_op(ArrWorld &w, const Op &op)
 	bool cb = op.I(1) != 0;
 	Outcome o;
 	vnadata_t *nv;
-	{ LibCall lc(c, &op); nv = vnadata_alloc(cb ? sim_error_fn : nullptr, nullptr); o = finish(lc, nv == nullptr); }
+	ARR_CALL(nv == nullptr, nv = vnadata_alloc(cb ? sim_error_fn : nullptr, nullptr))
 	if (!nv) {
 	    if (!o.fired) { c.violate("model", "realloc:rc", "vnadata_alloc failed without a fault"); return; }
 	    if (o.err != ENOMEM) { c.violate("model", "realloc:errno", "vnadata_alloc failed with errno other than ENOMEM"); return; }
